@@ -19,8 +19,8 @@
 (* REPL relies on `keep` locals of its persistent frame afterwards (the    *)
 (* highest binding index + 1; 0 = nothing / not known).                    *)
 (*                                                                         *)
-(* The state is the analysis state of the item.  Abstract values are pairs *)
-(* <<h, l>>: h = operand height on entry to a pc, relative to the frame    *)
+(* The state is the analysis state of the item.  Abstract values are       *)
+(* <<h, l, t, s, rel>> (t, s, rel: the nil classes described below); h = operand height on entry to a pc, relative to the frame    *)
 (* (entry: 1 = the argument); l = number of locals defined on ALL paths    *)
 (* reaching the pc (the minimum over the paths -- the COUNT may differ     *)
 (* between paths, only definedness is judged).  A pc that is not the       *)
@@ -40,9 +40,9 @@ CONSTANT Grain
 VARIABLE st   \* one record:
   \* it   : <<image index, function position (fi + 1), entry locals, keep>>
   \* ph   : "root" (the single initial state, fans out to the items) | "new" | "run" | "done"
-  \* M    : label pc -> <<h, l>>
-  \* cur  : <<>> or <<pc, h, l>>
-  \* work : set of label pcs
+  \* M    : <<label pc, class of the top operand>> -> <<h, l, t, s, rel>>
+  \* cur  : <<>> or <<pc, <<h, l, t, s, rel>>>>
+  \* work : set of <<label pc, class>>
   \* err  : <<>> or <<[rule, pc, h, l, x]>>
   \* stat : coverage counters of this item
 
@@ -69,6 +69,49 @@ Bad(rule, pc, h, l, x) == <<[rule |-> rule, pc |-> pc, h |-> h, l |-> l, x |-> x
 
 Unset == <<-1, -1>>
 
+(***************************************************************************)
+(* Nil classes.  The compiler tests "did the condition succeed" with the   *)
+(* idiom Duplicate; Not; JumpIf on a value that a failed match left as     *)
+(* Tuple(NIL): the locals a chain's LATER terms bind are defined only on   *)
+(* the path where the value is not nil, and the reads sit behind that      *)
+(* test.  So the abstract value also carries t = class of the top operand  *)
+(* ("n" nil, "t" not nil, "u" unknown), s = class of the operand below it  *)
+(* and rel = how the top relates to the one below ("=" a copy, "!" its     *)
+(* negation, "" nothing known), and the map M keeps one value per          *)
+(* <<label, t>>: paths arriving with a nil top and with a non-nil top are  *)
+(* propagated separately, and JumpIf follows only the edges the class      *)
+(* allows (handle_jump_if: jump iff the popped value is not nil).          *)
+(***************************************************************************)
+Classes == {"n", "t", "u"}
+Flip(c) == CASE c = "n" -> "t" [] c = "t" -> "n" [] OTHER -> "u"
+FlipRel(r) == CASE r = "=" -> "!" [] r = "!" -> "=" [] OTHER -> ""
+JoinC(a, b) == IF a = b THEN a ELSE "u"
+JoinR(a, b) == IF a = b THEN a ELSE ""
+
+\* <<t, s, rel>> after a non-branching instruction
+ClassAfter(I, T, t, s, rel) ==
+  CASE Op(I) = "Tuple"     -> IF T.arity[A(I) + 1] = 0 THEN <<IF A(I) = 0 THEN "n" ELSE "t", t, "">>
+                              ELSE <<"t", "u", "">>
+    [] Op(I) = "Constant"  -> <<"t", t, "">>
+    [] Op(I) = "Builtin"   -> <<"t", t, "">>
+    [] Op(I) = "Self"      -> <<"t", t, "">>
+    [] Op(I) = "Process"   -> <<"t", t, "">>
+    [] Op(I) = "Function"  -> <<"t", IF T.caps[A(I) + 1] = 0 THEN t ELSE "u", "">>
+    [] Op(I) = "Load"      -> <<"u", t, "">>
+    [] Op(I) = "Pick"      -> <<IF A(I) = 0 THEN t ELSE IF A(I) = 1 THEN s ELSE "u", t,
+                                IF A(I) = 0 THEN "=" ELSE "">>
+    [] Op(I) = "Duplicate" -> <<t, t, "=">>
+    [] Op(I) = "Not"       -> <<Flip(t), s, FlipRel(rel)>>
+    [] Op(I) \in {"Pop", "Store"} -> <<s, "u", "">>
+    [] Op(I) \in {"Reset", "Jump"} -> <<t, s, rel>>
+    [] OTHER -> <<"u", "u", "">>
+
+\* the operand below a tested top, once the test's outcome is known (wasNil = the popped top was nil)
+Refine(s, rel, wasNil) ==
+  CASE rel = "=" -> IF wasNil THEN "n" ELSE "t"
+    [] rel = "!" -> IF wasNil THEN "t" ELSE "n"
+    [] OTHER -> s
+
 \* in-range jump targets, the entry and the exit
 Labels(code) ==
   LET n == Len(code) IN
@@ -76,30 +119,35 @@ Labels(code) ==
                    t >= 0 /\ t <= n}
 
 (***************************************************************************)
-(* Control arrives at label s with abstract value <<h2, l2>>.              *)
+(* Control arrives at label s with abstract value v = <<h, l, t, s2, rel>>.*)
 (***************************************************************************)
-Arrive(S, n, s, h2, l2) ==
+Arrive(S, n, s, v) ==
   IF S.err # <<>> THEN S
-  ELSE IF s = n /\ h2 # 1 THEN [S EXCEPT !.err = Bad("exit_height", s, h2, l2, 1)]
-  ELSE IF S.M[s] = Unset
-         THEN [S EXCEPT !.M[s] = <<h2, l2>>, !.work = IF s < n THEN @ \cup {s} ELSE @]
-  ELSE IF S.M[s][1] # h2 THEN [S EXCEPT !.err = Bad("join_height", s, h2, l2, S.M[s][1])]
-  ELSE LET S1 == [S EXCEPT !.stat.joins = @ + 1,
-                           !.stat.ldiff = IF S.M[s][2] # l2 THEN @ + 1 ELSE @]
-       IN  IF l2 < S.M[s][2]
-           THEN [S1 EXCEPT !.M[s] = <<h2, l2>>, !.work = IF s < n THEN @ \cup {s} ELSE @]
-           ELSE S1
+  ELSE IF s = n /\ v[1] # 1 THEN [S EXCEPT !.err = Bad("exit_height", s, v[1], v[2], 1)]
+  ELSE IF \E c \in Classes : S.M[<<s, c>>] # Unset /\ S.M[<<s, c>>][1] # v[1]
+         THEN [S EXCEPT !.err = Bad("join_height", s, v[1], v[2],
+                                    S.M[<<s, CHOOSE c \in Classes : S.M[<<s, c>>] # Unset /\ S.M[<<s, c>>][1] # v[1]>>][1])]
+  ELSE LET key == <<s, v[3]>>
+           old == S.M[key]
+       IN IF old = Unset
+            THEN [S EXCEPT !.M[key] = v, !.work = IF s < n THEN @ \cup {key} ELSE @]
+          ELSE LET S1 == [S EXCEPT !.stat.joins = @ + 1,
+                                   !.stat.ldiff = IF old[2] # v[2] THEN @ + 1 ELSE @]
+                   nw == <<v[1], IF v[2] < old[2] THEN v[2] ELSE old[2], v[3], JoinC(old[4], v[4]), JoinR(old[5], v[5])>>
+               IN  IF nw # old
+                     THEN [S1 EXCEPT !.M[key] = nw, !.work = IF s < n THEN @ \cup {key} ELSE @]
+                     ELSE S1
 
 \* control falls through to s: carried on if s is an ordinary pc, merged if it is a label
-Fall(S, n, s, h2, l2) ==
-  IF s \in DOMAIN S.M THEN Arrive([S EXCEPT !.cur = <<>>], n, s, h2, l2)
-  ELSE [S EXCEPT !.cur = <<s, h2, l2>>]
+Fall(S, n, s, v) ==
+  IF <<s, "u">> \in DOMAIN S.M THEN Arrive([S EXCEPT !.cur = <<>>], n, s, v)
+  ELSE [S EXCEPT !.cur = <<s, v>>]
 
 \* control jumps to t
-Jump(S, n, pc, t, h2, l2) ==
+Jump(S, n, pc, t, v) ==
   IF S.err # <<>> THEN S
-  ELSE IF t < 0 \/ t > n THEN [S EXCEPT !.err = Bad("jump_range", pc, h2, l2, t)]
-  ELSE Arrive(S, n, t, h2, l2)
+  ELSE IF t < 0 \/ t > n THEN [S EXCEPT !.err = Bad("jump_range", pc, v[1], v[2], t)]
+  ELSE Arrive(S, n, t, v)
 
 (***************************************************************************)
 (* Propagate one instruction: the carried value, or else the lowest label  *)
@@ -108,11 +156,13 @@ Jump(S, n, pc, t, h2, l2) ==
 StepOne(S, code, T, selfcaps, keep) ==
   LET n  == Len(code)
       fromWork == S.cur = <<>>
-      pc == IF fromWork THEN MinOf(S.work) ELSE S.cur[1]
-      h  == IF fromWork THEN S.M[pc][1] ELSE S.cur[2]
-      l  == IF fromWork THEN S.M[pc][2] ELSE S.cur[3]
+      wk == IF fromWork THEN CHOOSE x \in S.work : \A y \in S.work : x[1] <= y[1] ELSE <<>>
+      pc == IF fromWork THEN wk[1] ELSE S.cur[1]
+      v  == IF fromWork THEN S.M[wk] ELSE S.cur[2]
+      h  == v[1]
+      l  == v[2]
       I  == code[pc + 1]
-      S0 == [M |-> S.M, cur |-> <<>>, work |-> IF fromWork THEN S.work \ {pc} ELSE S.work,
+      S0 == [M |-> S.M, cur |-> <<>>, work |-> IF fromWork THEN S.work \ {wk} ELSE S.work,
              err |-> <<>>,
              stat |-> IF Op(I) = "TailCall"
                         THEN [S.stat EXCEPT !.steps = @ + 1, !.tails = @ \cup {pc}]
@@ -127,17 +177,25 @@ StepOne(S, code, T, selfcaps, keep) ==
       ELSE IF Op(I) = "Reset" /\ ~LocalsOK(I, l) THEN [S0 EXCEPT !.err = Bad("reset_range", pc, h, l, A(I))]
       ELSE LET h2 == h + Delta(I, T)
                l2 == LocalsAfter(I, l)
-           IN  CASE Op(I) = "Jump"   -> Jump(S0, n, pc, pc + A(I) + 1, h2, l2)
-                 [] Op(I) = "JumpIf" -> Jump(Fall(S0, n, pc + 1, h2, l2), n, pc, pc + A(I) + 1, h2, l2)
+               c  == IF Op(I) = "JumpIf" THEN <<>> ELSE ClassAfter(I, T, v[3], v[4], v[5])
+               v2 == IF Op(I) = "JumpIf" THEN <<>> ELSE <<h2, l2, c[1], c[2], c[3]>>
+           IN  CASE Op(I) = "Jump"   -> Jump(S0, n, pc, pc + A(I) + 1, v2)
+                 \* handle_jump_if: the popped top decides; an edge the class rules out is not taken,
+                 \* and on each edge the operand below is refined by what the test has shown
+                 [] Op(I) = "JumpIf" ->
+                      LET vf == <<h2, l2, Refine(v[4], v[5], TRUE), "u", "">>
+                          vj == <<h2, l2, Refine(v[4], v[5], FALSE), "u", "">>
+                          Sf == IF v[3] = "t" THEN S0 ELSE Fall(S0, n, pc + 1, vf)
+                      IN  IF v[3] = "n" THEN Sf ELSE Jump(Sf, n, pc, pc + A(I) + 1, vj)
                  \* TailCall(true) restarts this frame: height 1 (the argument), locals cut back
                  \* to the captures; TailCall(false) leaves for another function
                  \* (handle_tail_call: truncate_locals(locals_base) -- in the REPL's persistent
                  \* frame this discards every variable the session has bound)
                  [] Op(I) = "TailCall" ->
-                      IF A(I) = 1 THEN Arrive(S0, n, 0, h2, selfcaps)
+                      IF A(I) = 1 THEN Arrive(S0, n, 0, <<h2, selfcaps, "u", "u", "">>)
                       ELSE IF keep > 0 THEN [S0 EXCEPT !.err = Bad("handover", pc, h, l, keep)]
                       ELSE S0
-                 [] OTHER -> Fall(S0, n, pc + 1, h2, l2)
+                 [] OTHER -> Fall(S0, n, pc + 1, v2)
 
 RECURSIVE Run(_, _, _, _, _, _)
 Run(S, code, T, selfcaps, keep, k) ==
@@ -150,9 +208,10 @@ Start(i) ==
   LET code == Code(i)
       n == Len(code)
       P == Imgs[i[1]]
-  IN  [M    |-> [t \in Labels(code) |-> IF t = 0 THEN <<1, i[3]>> ELSE Unset],
+  IN  [M    |-> [k \in Labels(code) \X Classes |->
+                   IF k = <<0, "u">> THEN <<1, i[3], "u", "u", "">> ELSE Unset],
        cur  |-> <<>>,
-       work |-> IF n > 0 THEN {0} ELSE {},
+       work |-> IF n > 0 THEN {<<0, "u">>} ELSE {},
        err  |-> IF P.tids[i[2]] < 0 \/ P.tids[i[2]] >= P.ntypes
                   THEN Bad("type_index", 0, 1, i[3], P.tids[i[2]]) ELSE <<>>,
        stat |-> Stat0]
